@@ -19,6 +19,8 @@ type SimpleGen struct {
 	R *lib.Rand
 	// FractionalBounds allows non-integral constraints on integer types (C13's domain)
 	FractionalBounds bool
+	// ByteSlices lets arrays whose elements all are uint8 travel as []uint8 (which the library takes for a binary string)
+	ByteSlices bool
 }
 
 func f64(v float64) *float64 { return &v }
@@ -267,6 +269,9 @@ func (g *SimpleGen) Value(d *SimpleDef, flip float64) any {
 		// a value of a non-matching kind
 		switch g.R.Intn(5) {
 		case 0:
+			if g.ByteSlices && g.R.P(0.3) {
+				return []uint8("ab")
+			}
 			return "str"
 		case 1:
 			return true
@@ -351,9 +356,27 @@ func (g *SimpleGen) Value(d *SimpleDef, flip float64) any {
 		if d.UniqueItems && n >= 2 && g.R.P(flip+0.1) {
 			elems[n-1] = elems[0]
 		}
+		if g.ByteSlices && n > 0 && g.R.P(0.5) {
+			if bs, ok := byteSlice(elems); ok {
+				return bs
+			}
+		}
 		return TypedSlice(elems, g.R.P(0.5))
 	}
 	return nil
+}
+
+// byteSlice turns elements which all are uint8 into a []uint8.
+func byteSlice(elems []any) ([]uint8, bool) {
+	out := make([]uint8, len(elems))
+	for i, e := range elems {
+		b, ok := e.(uint8)
+		if !ok {
+			return nil, false
+		}
+		out[i] = b
+	}
+	return out, true
 }
 
 // TypedSlice turns []any into a homogeneous typed slice when all elements share one Go type
